@@ -10,10 +10,10 @@ TECH = "contract-based deductive verification: VCs generated from go/ssa of the 
 # property -> (level text, level note, design ref)
 CLAIMED = {
     "C04": ("Soundness of prefilter pruning proved at every level, with no bound: the min/max overlap test for every operator, operand, block range, saturation state and row value in R u {+-inf} (EvaluateMinMaxCondition against covers/sat); conversions and clamping for every dynamic numeric kind incl. named types (on the repaired tree, fix b2d7c7b); UpdateMinMaxIndex; the leaf evaluator (evaluatePrefilterCondition: a partition or minmax condition the row satisfies is never false on a block that holds the row); the tree evaluator by induction on the tree (evaluatePrefilterExpression verified against its own contract at its recursive calls, OR/AND loops by invariant: for every valuation of nodes consistent one level down with the documented AND/OR/leaf semantics, a block holding a row that satisfies the expression is admitted), EvaluateDataBlockMetadata and FilterDataBlocks (every block that holds such a row is in the result); and the merge link: mergeMinMaxIndexes returns exactly the union of the key sets with ranges containing both inputs' ranges, and a merged block's ranges contain the ranges of every source block of its group.",
-            "Trusted: go/ssa, the SSA->SMT encoder, the solvers. Floats modelled as extended reals (exact for floor/ceil/compare). The row is a ghost (uninterpreted partition ID and per-field values); 'block holds the row' (same partition ID, ranges cover the row's values) is the hypothesis: that flush establishes it for the rows it writes (the ingest link) is NOT under a C04 contract yet (DESIGN §19).", "§7 C04, §19"),
+            "Trusted: go/ssa, the SSA->SMT encoder, the solvers. Floats modelled as extended reals (exact for floor/ceil/compare). The row is a ghost (uninterpreted partition ID and per-field values); 'block holds the row' (same partition ID, ranges cover the row's values) is the hypothesis. Ingest link, loop level only: once processIngestRequest has looked at the configured index fields of a row, the partition buffer's range for every field the row holds as a number contains the bounds the conversion gives (inductive invariant of the minmax loop, duplicates in the configured list included); that this composes over all rows and partitions into 'every flushed block holds its rows' is on paper (DESIGN §19).", "§7 C04, §19"),
     "C12": ("Layout limits of Merge proved with unbounded folds (sum over the members of a group, for groups of any length): in processPartitionBlocks the running totals are exactly the sums of the source blocks' Rows / UncompressedSize over the group, a block joins only if both totals stay within MaxRowGroupRows / MaxRowGroupBytes, finished groups are never touched again (inductive invariant over the list of groups), and every group handed to mergeDataBlocks — the one place blocks are combined — satisfies both limits (its precondition, proved at the call site after a frame argument: the callees write no index list); blocksWithinMergeLimits equals its mathematical specification; identifyFileMergeGroups returns groups of at least two files whose total number of files is within MaxFilesToMergePerOperation (fold of group lengths), and merge() issues exactly one delete operation per member of those groups, so the number of files removed at the commit (asserted at MetaStore.Update) is within the limit.",
             "Stated for counters and limits in [0, 2^62), the range in which the Go additions are exact (preconditions of the top-level functions, listed in the evidence). The fold lemmas (empty, one element, step, extensionality, concatenation, non-negativity) are proved by induction on every run (prelude/isum-* obligations), not assumed. NOT decided: the MaxFileSize clause (needs sort.Slice's permutation property for the candidates), 'same minmax key set' (blockMergeKey is abstracted; the groups are formed inside one bucket but the bucket-key relation is not under contract), and that a merged block's own Rows equals the sum of its sources' (C17 counters).", "§7 C12, §18"),
-    "C19": ("No-panic / in-bounds obligations and exact functional contracts (validSection) for the framing validators the read path relies on, proved for all 2^64 values of every offset and size field (compare-by-subtraction proved overflow-proof under the stated preconditions).",
+    "C19": ("No-panic / in-bounds obligations and exact functional contracts (validSection) for the framing validators the read path relies on, proved for all 2^64 values of every offset and size field (compare-by-subtraction proved overflow-proof under the stated preconditions); ReadFileMetadata returns metadata only if everything it describes (region and every block's two extents) lies inside the file, for every value of every footer field.",
             "Trusted: go/ssa, encoder, solvers; fmt.Errorf returns non-nil (extern). Library decoders and CRC collisions are assumptions.", "§7 C19"),
 }
 
@@ -37,7 +37,7 @@ CLAIMED.update({
 CLAIMED.update({
     "C02": ("Verify-before-deliver proved on processDataBlock for every path: rowBatcher.add requires (ghost typestate) that matchRowBytes just accepted the row, so per-row verification cannot be skipped or reordered; a batch is handed to deliver exactly once and forgotten (rowBatcher.flush), deliver performs at most one send on the row channel and exactly one when it returns nil; each scanner step consumes a strictly later extent (BlockRowScanner.Next).",
             "matchRowBytes' own contract is assumed (gjson-bound body); matcher tree semantics and end-to-end multiset equality are not yet under contract (DESIGN §7 C02).", "§7 C02"),
-    "C03": ("Ownership obligations: materializeRow never takes a zero-copy view (ghost count of unsafeString calls unchanged: delivered rows are parsed from an independent copy); scan-buffer typestate (bufOwned) proved for getScanBuffer/putScanBuffer/readChunkFrom/filtersFor/release: a pooled buffer is returned at most once and the cursor never keeps a buffer it returned.",
+    "C03": ("Ownership obligations: materializeRow never takes a zero-copy view (ghost count of unsafeString calls unchanged: delivered rows are parsed from an independent copy); scan-buffer typestate (bufOwned) proved for getScanBuffer/putScanBuffer/readChunkFrom/filtersFor/release: a pooled buffer is returned at most once and the cursor never keeps a buffer it returned; the row data readPooledBlockRowData hands to a scan is a buffer still checked out of the pool (it has not been handed back, for every compression setting incl. the legacy empty one).",
             "JSON fidelity versus encoding/json is not decided by contracts (bounded stand-in planned, DESIGN §7 C03); sync.Pool content invariant assumed (extern).", "§7 C03"),
     "C20": ("Sequential state machine of the cursor proved: finish/terminate/Close's once-body decide err at most once (a decided terminal state is never overwritten), Next after completion returns false and changes nothing, every false return leaves a terminal state, and a cancellation observed by terminate yields an error wrapping the caller context's error.",
             "Timing of Close versus Next across goroutines and 'eventually' are not decided (DESIGN §7 C20). context/fmt.Errorf externs assumed.", "§7 C20"),
@@ -54,7 +54,7 @@ CLAIMED.update({
             "The ticker-driven time bound is a timing statement and is not decided; partition-level limits are covered only through the same post-state (DESIGN §7 C10).", "§7 C10"),
     "C24": ("Pruning obligations proved per function: FilterDataBlocks returns only blocks the prefilter admits (each result is one of the inputs and passed TestBlockPrefilter); the file stage dispatches a file only with a non-empty admitted block list and, with bloom conditions, a positive file-filter verdict; evaluateBlockFilters acquires no handle and opens nothing when the query has no bloom/regex conditions; the chunk reader and row-data readers read only inside the extents the metadata declares (readFullAt assertion, validSection/checkExtentWithinFile contracts).",
             "Store read log is ghost (opens/hAcquired counters via extern contracts, assumed). Bloom library Test is an extern (DESIGN §7 C24).", "§7 C24"),
-    "C25": ("Constructor and builder semantics proved for every valuation of the leaves: flattenExpressions/flattenPrefilterExpressions/flattenRegexExpressions preserve 'all children true' and 'some child true' of the input list for the flattened operator (inductive loop invariants, unbounded lists), And/Or/PrefilterAnd/PrefilterOr/RegexAnd/RegexOr return a node of the stated operator whose children have that meaning, QueryBuilder.where/addBloomExpression/whereRegex/addRegexExpression/Build/MatchPrefilter assemble implicit conditions under a single AND and keep the explicit expression, on the bloom and on the regex side; chaining onto an explicit expression builds a new node and never writes into the caller's tree (append-shared obligations).",
+    "C25": ("Constructor and builder semantics proved for every valuation of the leaves: flattenExpressions/flattenPrefilterExpressions/flattenRegexExpressions preserve 'all children true' and 'some child true' of the input list for the flattened operator (inductive loop invariants, unbounded lists), And/Or/PrefilterAnd/PrefilterOr/RegexAnd/RegexOr return a node of the stated operator whose children have that meaning, QueryBuilder.where/addBloomExpression/whereRegex/addRegexExpression/Build/MatchPrefilter assemble implicit conditions under a single AND and keep the explicit expression, on the bloom and on the regex side; chaining onto an explicit expression builds a new node and never writes into the caller's tree (append-shared obligations). The bloom evaluator computes exactly the documented combination: evaluateBloomCondition equals the leaf semantics over the filters (a missing filter cannot disqualify, unknown kinds are false) and evaluateBloomExpression returns, by induction on the tree, the value of every valuation that agrees one level down with the AND/OR/leaf semantics (result <==> bval).",
             "Evaluation is stated one level deep over an arbitrary valuation of child nodes (the evaluators themselves are under contract in C04/C24); JSON round-trip depends on encoding/json and is not decided by contracts (DESIGN §7 C25).", "§7 C25"),
 })
 
@@ -76,6 +76,11 @@ CLAIMED.update({
 CLAIMED.update({
     "C11": ("Content-preservation links of merge proved per function, for groups of any size and blocks of any number of rows: a rebuilt block (mergeDataBlocks) carries the group's partition ID, ranges that contain the ranges of every source block (mergeMinMaxIndexes: key set = union, each merged range contains both inputs'; UpdateMinMaxIndex), and a row count equal to the number of rows the source scanners yielded — every scanned row is written and counted exactly once — and a malformed source row stream fails the merge instead of truncating it (mergeDataBlocks, copyDataBlock); a copied block keeps everything that describes its content (partition ID, ranges, row count, sizes, hash, compression) and changes only its location; each scanner step consumes a strictly later extent (BlockRowScanner.Next).",
             "A proof of links. NOT decided: that every source block lands in exactly one copy/merge group (the grouping's `used` bookkeeping is not under a C11 contract), the multiset of rows across the whole Merge, and equality of query answers before and after (follows on paper from these links plus C01/C02; DESIGN §7 C11). Source metadata truthfulness (Rows of a source block = rows in it) is C17's.", "§7 C11, §19"),
+})
+
+CLAIMED.update({
+    "C16": ("Write protocol of FileSystemDataStore proved for every outcome of every filesystem call (os.* results unconstrained: any call may fail, in any combination): CreateFile only ever creates exclusively (every os.OpenFile it makes carries O_WRONLY|O_CREATE|O_EXCL — it cannot open, truncate or overwrite an existing path), for any number of name collisions and redraws (loop invariant) it returns holding exactly the reservation and the temp file of one attempt and on every failure holds nothing (each exclusive create not handed out is removed again), and it never renames; renameOnCloseFile.Close renames only after the file was synced and closed successfully, syncs the directory only after a successful rename, sets `published` only when all four steps succeeded and leaves it unchanged on any error, and removes nothing; Abort of a published file removes nothing, otherwise it removes the temp path and then the final path — both, whatever the first removal reports; TombstoneFile always removes the pointer's path (and at most one sibling), never creates or renames; the filesystem MetaStore's Update issues exactly one Remove per delete operation; OpenFile never creates.",
+            "The filesystem itself is assumed: the os.OpenFile / Remove / Rename / File.Sync / File.Close contracts only count calls and record the removed path; O_EXCL's meaning, rename atomicity and what a directory scan lists are the operating system's. NOT decided: the directory-scan clause (exactly the published, untombstoned files with exactly the bytes written), that the temp path derived by TombstoneFile from a pointer equals the writer's (string reasoning over filepath.Join / TrimSuffix, left abstract), crash behaviour (C15).", "§7 C16, §19"),
 })
 
 NOT_APPLICABLE = {
